@@ -131,6 +131,32 @@ class PKI:
         return pem(self.root)
 
 
+def compressed_spki(cert, signer_key):
+    """the same certificate with its EC subject key written as a COMPRESSED point (02/03 || x; RFC 5480 2.2 allows it and OpenSSL reads it), signed again by `signer_key`
+    with the certificate's own signature algorithm: the same key in another valid SubjectPublicKeyInfo encoding.  Certificates over other key types come back unchanged."""
+    from asn1crypto import x509 as _ax, keys as _keys
+    from cryptography.hazmat.primitives.asymmetric import padding as _pad
+    if not isinstance(cert.public_key(), ec.EllipticCurvePublicKey):
+        return cert
+    c = _ax.Certificate.load(der(cert))
+    tbs = c["tbs_certificate"]
+    pt = bytes(tbs["subject_public_key_info"]["public_key"])
+    if pt[:1] != b"\x04":
+        return cert
+    half = (len(pt) - 1) // 2
+    tbs["subject_public_key_info"]["public_key"] = _keys.ECPointBitString(bytes([2 + (pt[-1] & 1)]) + pt[1:1 + half])
+    tbs_der = tbs.dump(force=True)
+    h = cert.signature_hash_algorithm
+    if isinstance(signer_key, ec.EllipticCurvePrivateKey):
+        sig = signer_key.sign(tbs_der, ec.ECDSA(h))
+    elif isinstance(signer_key, rsa.RSAPrivateKey):
+        sig = signer_key.sign(tbs_der, _pad.PKCS1v15(), h)
+    else:
+        return cert
+    c["signature_value"] = sig
+    return x509.load_der_x509_certificate(c.dump(force=True))
+
+
 # ---------------- DER helpers for the android KeyDescription ----------------
 def d_len(n):
     if n < 128:
@@ -332,6 +358,8 @@ def build(s):
     chain_extra = k.get("chain_extra", ())
 
     def chain(leaf, with_root=False):
+        if k.get("leaf_spki_compressed"):
+            leaf = compressed_spki(leaf, k.get("leaf_signer") or pki.issuer_key)
         if "x5c_override" in k:
             return k["x5c_override"](pki, leaf)
         return pki.chain_der(leaf, order=k.get("chain_order", "normal"), with_root=with_root, extra=chain_extra)
